@@ -53,6 +53,21 @@ Trans == {<<OP_1ADD>>, <<OP_1SUB>>, <<OP_NEGATE>>, <<OP_ABS>>, <<OP_NOT>>, <<OP_
           <<OP_0, OP_BOOLOR>>}
 AliasProgs == {PushMin(<<9>>) \o PushMin(x) \o pv \o tr \o tl : x \in AliasItems, pv \in Prov, tr \in Trans,
                tl \in {<<OP_NOP>>, <<OP_FROMALTSTACK>>, <<OP_SWAP, OP_1ADD>>}}
+\* second aliasing family: the copied item is *computed* (a result owns its buffer, possibly with spare capacity), one
+\* copy is grown, and the tail grows the other copy as well (the two results must not share storage)
+AliasSources == {<<82, 83, OP_ADD>>, <<1, 5, 1, 170, OP_CAT>>, <<2, 1, 2, OP_1, OP_LSHIFT>>, <<1, 5, OP_1ADD>>, <<2, 1, 2, 83, OP_NUM2BIN>>}
+Grow == {<<1, 7, OP_CAT>>, <<2, 7, 8, OP_CAT>>, <<OP_1 + 5, OP_NUM2BIN>>, <<OP_1ADD>>, <<OP_DUP, OP_CAT>>}
+AliasProgs2 == {PushMin(<<9>>) \o src \o pv \o tr \o tl : src \in AliasSources, pv \in Prov, tr \in Grow,
+                tl \in {<<OP_NOP>>, <<OP_SWAP, 1, 187, OP_CAT>>, <<OP_SWAP, OP_1 + 6, OP_NUM2BIN>>, <<OP_FROMALTSTACK, 1, 187, OP_CAT>>}}
+\* pushes in dead or skipped positions: conditional contexts x push forms (minimal, PUSHDATA1/2 of one byte, a
+\* one-byte number that has an OP_N form, OP_1NEGATE as data) x closers; MINIMALDATA must only see executed pushes
+DeadCtx == {<<<<OP_0, OP_IF>>, <<OP_ENDIF>>>>, <<<<OP_1, OP_IF, OP_RETURN, OP_ENDIF>>, <<>>>>,
+            <<<<OP_0, OP_IF, OP_IF, OP_ELSE>>, <<OP_ENDIF, OP_ENDIF>>>>, <<<<OP_0, OP_IF, OP_1, OP_IF>>, <<OP_ENDIF, OP_ENDIF>>>>,
+            <<<<OP_1, OP_NOTIF>>, <<OP_ENDIF>>>>, <<<<OP_1, OP_IF, OP_ELSE>>, <<OP_ENDIF>>>>, <<<<OP_0, OP_IF, OP_ELSE>>, <<OP_ENDIF>>>>,
+            <<<<OP_RETURN>>, <<>>>>, <<<<OP_0, OP_IF, OP_RETURN, OP_ELSE>>, <<OP_ENDIF>>>>, <<<<OP_0, OP_NOTIF, OP_IF, OP_RETURN, OP_ENDIF>>, <<OP_ENDIF>>>>,
+            <<<<OP_1>>, <<OP_DROP>>>>}
+DeadPush == {<<1, 2>>, <<76, 1, 7>>, <<77, 1, 0, 7>>, <<1, 5>>, <<1, 129>>, <<76, 0>>}
+DeadProgs == {c[1] \o p \o c[2] \o <<OP_1>> : c \in DeadCtx, p \in DeadPush}
 
 LockVals == {<<>>, <<1>>, <<10>>, <<129>>, <<255, 255, 0>>, <<0, 0, 64>>, <<5, 0, 64>>, <<255, 100, 205, 29>>, <<0, 101, 205, 29>>,
              <<0, 0, 0, 128, 0>>, <<5, 0, 64, 128, 0>>, <<255, 255, 255, 255, 127>>, <<1, 2, 3, 4, 5, 6>>, <<10, 0>>}
@@ -70,6 +85,8 @@ Locks == CASE Family = "unary" -> {PushMin(a) \o <<op>> \o tail : a \in Edge, op
            [] Family = "flow4" -> {Concat(s) \o <<OP_1>> : s \in SeqsUpTo(FlowAlpha, 4)}
            [] Family = "locktime" -> {PushMin(v) \o <<op>> \o tl : v \in LockVals, op \in {OP_CLTV, OP_CSV}, tl \in {<<>>, <<OP_DROP, OP_1>>}}
            [] Family = "alias" -> AliasProgs
+           [] Family = "alias2" -> AliasProgs2
+           [] Family = "deadpush" -> DeadProgs
            [] Family = "nonmin" -> {<<Len(a)>> \o a \o <<Len(b)>> \o b \o <<op>> : a \in Small \ {<<>>}, b \in Small \ {<<>>},
                                       op \in {OP_ADD, OP_EQUAL, OP_PICK, OP_SPLIT, OP_NUM2BIN, OP_LSHIFT}}
                                    \cup {<<OP_PUSHDATA1, Len(a)>> \o a \o <<op>> : a \in Small, op \in {OP_1ADD, OP_SIZE, OP_IF}}
@@ -99,7 +116,7 @@ LockCtxs == {[genesis |-> g, f |-> [Flags(md, FALSE) EXCEPT !.discourage = dc, !
 UCtxs == {c \in TwoCtxs : ~c.f.p2sh /\ ~c.f.sigpushonly /\ ~c.f.cleanstack}
 Ctxs == IF Family = "locktime" THEN LockCtxs ELSE IF Family = "uflow4" THEN UCtxs ELSE IF Family \in {"two2", "two3"} THEN TwoCtxs ELSE
         {[genesis |-> g, f |-> Flags(md, mi), lt |-> <<0, 0, 0, 0>>, seq |-> <<255, 255, 255, 255>>, ver |-> <<1, 0, 0, 0>>, sigmode |-> "none", sx |-> <<>>] :
-           g \in BOOLEAN, md \in BOOLEAN, mi \in IF Family \in {"flow5", "flow4", "unary", "nonmin"} THEN BOOLEAN ELSE {FALSE}}
+           g \in BOOLEAN, md \in BOOLEAN, mi \in IF Family \in {"flow5", "flow4", "unary", "nonmin", "deadpush"} THEN BOOLEAN ELSE {FALSE}}
 
 VARIABLES prog, cx, vm, started
 vars == <<prog, cx, vm, started>>
